@@ -12,6 +12,23 @@ mod runner;
 mod selftest;
 mod check;
 
+/// The seam for the *monotonic* clock.  `std::time::Instant::now()` ends in libc's
+/// `clock_gettime`; this definition in the executable takes its place at link time.  While a
+/// simulation runs, the monotonic clocks are answered from the simulator's virtual clock; at any
+/// other time (and for every other clock id) the real system call is made.
+#[no_mangle]
+pub unsafe extern "C" fn clock_gettime(clk: libc::clockid_t, ts: *mut libc::timespec) -> libc::c_int {
+    use std::sync::atomic::Ordering;
+    let monotonic = clk == libc::CLOCK_MONOTONIC || clk == libc::CLOCK_MONOTONIC_RAW || clk == libc::CLOCK_MONOTONIC_COARSE || clk == libc::CLOCK_BOOTTIME;
+    if monotonic && stretto_sim_rt::rt::SIM_CLOCK_ON.load(Ordering::Relaxed) && !ts.is_null() {
+        let now = stretto_sim_rt::rt::NOW.load(Ordering::SeqCst);
+        (*ts).tv_sec = (now / 1_000_000_000) as libc::time_t;
+        (*ts).tv_nsec = (now % 1_000_000_000) as libc::c_long;
+        return 0;
+    }
+    libc::syscall(libc::SYS_clock_gettime, clk, ts) as libc::c_int
+}
+
 fn main() {
     let args: Vec<String> = std::env::args().collect();
     let code = check::cli(&args[1..]);
